@@ -21,6 +21,7 @@ EXPLANATION = (
     "return annotations are resolved with resolve_type_vars(annotation, object type, at_class=defining class); (R4) a lambda's own "
     "parameter type is the last writer over inherited names."
     " (R5) inherited declarations are seen; (R6) a parameterised class hands its arguments to its generic base by position, paired with the variables of its own class; (R7) dictionary literals are typed exactly when their keys can be dataclass fields; (R8) a repeated key has the type of its last entry; (R9) the base a class inherits its parameters from is its first parameterised base other than Generic[..]; (R10) an unparameterised subclass is followed through what it inherits before type variables are given up."
+    " (R12/R13) the iterable test does not consult the element type; the result of a nested collection operator derives from the collection method's call."
 )
 NOT_DECIDED = "the type-variable algebra of util_types.py over arbitrary class models (it manipulates runtime typing objects whose structure is not in this repository's source)."
 
